@@ -128,6 +128,12 @@ func cursorExec(p *sut.Proc, a Action) Out {
 			return Out{K: "err", E: errClass(r), Vals: []string{}}
 		}
 		return Out{K: "val", Vals: nonNil(printed(r.Out))}
+	case "whileindispose":
+		r := p.Exec("WHILE @a, @b IN " + c + " DO PRINT @a; DISPOSE CURSOR " + c + "; END WHILE;")
+		if r.Err != "" {
+			return Out{K: "err", E: errClass(r), Vals: []string{}}
+		}
+		return Out{K: "val", Vals: []string{}}
 	case "insert":
 		o, _ := stmtOut(p, fmt.Sprintf("INSERT INTO t VALUES (%d, %d);", aInt(a, "id"), aInt(a, "v")))
 		return o
@@ -227,7 +233,7 @@ func cursorRandom(r *core.Run, k int) (Action, []Action) {
 		case x < 67:
 			acts = append(acts, cursorA("status", c, "", "", 0, 0, 0))
 		case x < 72:
-			acts = append(acts, cursorA("whilein", c, "", "", 0, 0, 0))
+			acts = append(acts, cursorA([]string{"whilein", "whilein", "whileindispose"}[rng.Intn(3)], c, "", "", 0, 0, 0))
 		case x < 80:
 			acts = append(acts, cursorA("insert", "", "", "", 0, nextID, 1+rng.Intn(3)))
 			nextID++
